@@ -118,6 +118,9 @@ func opParEpochs(g *G) (interface{}, []uint64, int, interface{}) {
 		}
 		verify = append(verify, v)
 		generation++
+		if v != nil {
+			break // an ill-formed population is not turned over again (the next epoch would crash inside a goroutine)
+		}
 	}
 	if epochErr == nil {
 		pops = append(pops, dumpPop(pop))
